@@ -1954,6 +1954,39 @@ def _wraps_in_cache(ctx: Ctx, m, e, depth=0):
     return None
 
 
+def rule_no_module_iterators(ctx: Ctx, rid="C17.NO-ONE-SHOT-CONSTANTS"):
+    """A module- or class-level name bound to a one-shot iterator (a generator expression, map / filter / zip / iter / reversed /
+    enumerate object) and read inside functions is consumed by its first use: every later use - by the same evaluator, another one or
+    another thread - sees it empty or part-way through, so what the code does depends on what ran before."""
+    ONE_SHOT = {"map", "filter", "zip", "iter", "reversed", "enumerate", "itertools.chain", "chain", "itertools.accumulate", "accumulate",
+                "itertools.cycle", "itertools.count"}
+    n = 0
+    for m in ctx.src.own_modules():
+        scopes = [("module", m.tree.body)] + [(c.name, c.body) for c in m.classes().values()]
+        for owner, body in scopes:
+            for st in body:
+                val = names = None
+                if isinstance(st, ast.Assign):
+                    val, names = st.value, [t.id for t in st.targets if isinstance(t, ast.Name)]
+                elif isinstance(st, ast.AnnAssign) and st.value is not None and isinstance(st.target, ast.Name):
+                    val, names = st.value, [st.target.id]
+                if not names:
+                    continue
+                n += 1
+                one_shot = isinstance(val, ast.GeneratorExp) or (isinstance(val, ast.Call) and dotted(val.func) in ONE_SHOT)
+                if not one_shot:
+                    continue
+                used = [x for f_ in ast.walk(m.tree) if isinstance(f_, (ast.FunctionDef, ast.Lambda)) for x in ast.walk(f_)
+                        if (isinstance(x, ast.Name) and x.id in names and isinstance(x.ctx, ast.Load))
+                        or (isinstance(x, ast.Attribute) and x.attr in names and owner != "module")]
+                if used:
+                    ctx.rep.bad(rid, f"{m.rel}:{owner}.{names[0]}", f"`{norm(st)[:80]}` binds a one-shot iterator that functions read "
+                                f"(`{norm(used[0])}` at line {getattr(used[0], 'lineno', '?')}): the first use consumes it, later uses see "
+                                "what is left - the outcome depends on what ran before in the process", site=m.site(st), text=norm(st)[:120])
+    ctx.rep.ok(rid, "src/pyab_experiment (outside sly)", f"{n} module- and class-level bindings scanned; none is a one-shot iterator that "
+               "functions read", nontrivial=False)
+
+
 def rule_copy_protocol(ctx: Ctx, rid="C11.COPY-IS-CURRENT"):
     """When the evaluator class defines its own copy / pickle protocol, a copy taken after a recompile must serve the text the original
     serves at that moment (default copying duplicates the instance dictionary and needs no check)."""
